@@ -197,6 +197,15 @@ func TestVerifC17(t *testing.T) {
 			vh17Socket(o, "socket-vec", 1, msize, s, base, orc, vh17Chunks(r, len(s)), 40*time.Microsecond)
 			vh17Socket(o, "socket-generic", 2, msize, s, base, orc, vh17Chunks(r, len(s)), 40*time.Microsecond)
 		}
+		if i%3 == 0 { // a Read that fails with a non-EOF error (with or without data): connection error, never another message
+			sc := vh02Cuts(r, len(s))
+			sc[r.Intn(len(sc))].Err = true
+			rd := &vh02Reader{data: s, script: sc}
+			evs := vh02Loop(rd, msize, func() int { return rd.pos }, vh17Max)
+			vh17id++
+			o.Emit(vh17Case{Kind: "loop", ID: vh17id, What: "read-error", Mode: 3, MSize: msize, Max: vh17Max, Stream: vhBytes(s),
+				Oracle: orc, Events: evs, Base: base})
+		}
 		if i%10 == 0 { // Reads that hand over nothing (0, nil): model comparison only
 			sc := vh02Cuts(r, len(s))
 			for j := range sc {
